@@ -57,10 +57,12 @@ def aggregate(obls):
         elif ob.verdict == 'unknown':
             # one query per path the solver left open: a second opinion has to close ALL of them
             a['details'].append(ob.detail)
+            a.setdefault('reasons', []).append(ob.reason)
             if a['verdict'] == 'proved':
                 a['verdict'] = 'unknown'
                 a['detail'] = ob.detail
                 a['line'] = ob.line
+                a['candidate'] = ob.model
     return out
 
 
@@ -85,6 +87,20 @@ def verify_contract(reg, c, timeout_ms=10000, feas_timeout_ms=2000, canary=True,
     res.file = eng.src.path_of(func)
     res.line = node.lineno
     res.stmts = sum(1 for x in __import__('ast').walk(node) if isinstance(x, __import__('ast').stmt)) - 1
+    body = node.body
+    frag = c.options.get('fragment_from')
+    if frag:
+        # Fragment contract: the suffix of the REAL body that starts at the first top-level
+        # statement whose source text starts with the marker; the locals listed as
+        # fragment_inputs are arbitrary values of their declared sorts at that point.
+        import ast as _a
+        idxs = [i for i, st in enumerate(node.body) if _a.unparse(st).strip().startswith(frag)]
+        if len(idxs) != 1:
+            res.error = (f'fragment marker {frag!r} matches {len(idxs)} top-level statements of '
+                         f'{c.target} (exactly one expected)')
+            return res
+        body = node.body[idxs[0]:]
+        res.line = body[0].lineno
     sig = inspect.signature(func)
     params = list(sig.parameters)
     is_method = owner is not None and not isinstance(raw, staticmethod)
@@ -125,6 +141,8 @@ def verify_contract(reg, c, timeout_ms=10000, feas_timeout_ms=2000, canary=True,
                 eng.watch(name, v.t)
         if isinstance(raw, classmethod) and params and params[0] not in env:
             env[params[0]] = const(owner)
+        for name in (c.options.get('fragment_inputs') or []) if frag else []:
+            env[name] = eng.sym(name, parse_kind(c.sorts[name]))
         fr = Frame(func, func.__globals__, env, qualname=c.vname, contract=c, cls=owner)
         fr.self_name = params[0] if is_method and params else None
         fr.param_names = tuple(params)
@@ -160,7 +178,7 @@ def verify_contract(reg, c, timeout_ms=10000, feas_timeout_ms=2000, canary=True,
                 eng.check_ghost_stmt(gs, c)
                 eng.exec(gs)
         try:
-            eng.exec_block(node.body)
+            eng.exec_block(body)
             result = NONEV
             outcome = 'return'
         except ReturnEx as r:
@@ -171,6 +189,15 @@ def verify_contract(reg, c, timeout_ms=10000, feas_timeout_ms=2000, canary=True,
         line = eng.cur_line
         if outcome == 'return':
             eng.frames[:] = [fr]
+            # vacuity guard per return statement: is this exit reachable under everything that was
+            # assumed on the way (callee contracts, invariants)?  A return line that NO path reaches
+            # with a satisfiable path condition is reported as a checker error below.
+            rr = p.check(None, timeout=min(3000, timeout_ms))
+            stat = reach.setdefault('returns', {}).setdefault(line, [0, 0])
+            if rr == z3.unsat:
+                stat[1] += 1
+                raise Infeasible()
+            stat[0] += 1
             # declared exceptional conditions must not hold on a normal return
             for exc, cond in c.raises.items():
                 t = eng.spec_old_clause(cond, penv, c)
@@ -238,11 +265,18 @@ def verify_contract(reg, c, timeout_ms=10000, feas_timeout_ms=2000, canary=True,
     eng.spec_old_clause = spec_old_clause
 
     npaths = 0
+    import os as _os
+    budget_s = int(_os.environ.get('VERIF_FUNCTION_BUDGET_S') or c.options.get(
+        'budget_s', 600 if _os.environ.get('VERIF_TIER', 'quick') == 'quick' else 3600))
     while stack:
         prefix = stack.pop()
         npaths += 1
         if npaths > c.max_paths:
             res.unsupported.append(f'path limit {c.max_paths} exceeded')
+            break
+        if time.time() - t0 > budget_s:
+            res.unsupported.append(f'time budget of {budget_s}s for one function exceeded after '
+                                   f'{npaths - 1} paths')
             break
         eng.path_id = npaths
         p = None
@@ -282,6 +316,18 @@ def verify_contract(reg, c, timeout_ms=10000, feas_timeout_ms=2000, canary=True,
         elif c.ensures and not seen_canary[0] and not res.unsupported \
                 and not reach.get('canary_unknown') and reach.get('ensures'):
             res.error = 'vacuity: no satisfiable normally-returning path (canary proved)'
+        dead = sorted(s for s, (alive, killed) in eng.site_stats.items() if alive == 0 and killed > 0)
+        if dead and not res.error and not res.unsupported:
+            res.error = ('vacuity: no path survives the contract assumed at call site(s) ' + ', '.join(dead)
+                         + ' (the callee contract contradicts what is known there)')
+        res.vacuity['call_sites_alive'] = {s: v[0] for s, v in eng.site_stats.items()}
+        unreach = sorted(str(ln) for ln, (alive, deadn) in reach.get('returns', {}).items()
+                         if alive == 0 and deadn > 0)
+        res.vacuity['returns_reached'] = {str(ln): v[0] for ln, v in reach.get('returns', {}).items()}
+        if unreach and not res.error and not res.unsupported and not c.options.get('dead_returns_ok'):
+            res.error = ('vacuity: every path to the return at line(s) ' + ', '.join(unreach) + ' has an '
+                         'unsatisfiable path condition (an assumed contract or invariant on the way is '
+                         'contradictory, or the return is dead code: option dead_returns_ok)')
         missing = [n for n in c.ensures if n not in reach.get('ensures', ())]
         if missing and not res.unsupported and not res.error and not c.raises and not c.may_raise:
             res.error = f'vacuity: ensures never reached: {missing}'
@@ -349,5 +395,16 @@ def check_frame(eng, c, old_heap, penv, line):
             continue
         r = z3.Int('r!fr')
         cond = [r >= 1, r < p.next0] + eng.frame_conds(allowed, r)
-        goal = z3.ForAll([r], z3.Implies(z3.And(*cond), z3.Select(arr, r) == z3.Select(old, r)))
+        same = z3.Select(arr, r) == z3.Select(old, r)
+        if key.startswith('@val:'):
+            # the observable content of a dict is its key set and the values AT its keys: the
+            # value array is compared only where the (current) key set has the key
+            hkey = '@has:' + key.split(':')[1]
+            has = p.heap.get(hkey)
+            if has is not None:
+                kd = z3.Const('k!fr', has.sort().range().domain())
+                same = z3.ForAll([kd], z3.Implies(z3.Select(z3.Select(has, r), kd),
+                                                  z3.Select(z3.Select(arr, r), kd)
+                                                  == z3.Select(z3.Select(old, r), kd)))
+        goal = z3.ForAll([r], z3.Implies(z3.And(*cond), same))
         eng.prove(f'{c.vname}::frame[{key}]', goal, line=line)
